@@ -679,6 +679,11 @@ package ring
 //@   assigns p3
 //@   ensures val(p3) == old(val(p3)) - old(val(p1)) * old(val(p2)) && mexp(p3) == old(mexp(p3)) && dom(p3) == 1
 
+//@ afunc Poly.Zero
+//@   trusted ring-element view: every coefficient is set to 0
+//@   assigns pol
+//@   ensures val(pol) == 0
+
 //@ afunc Ring.AddLazy
 //@   trusted ring-element view: the lazy variant computes the same ring element (its range is a coefficient-level matter)
 //@   requires ((isntt(p1) && isntt(p2)) || (iscoef(p1) && iscoef(p2))) && mexp(p1) == mexp(p2)
